@@ -104,6 +104,7 @@ def op_obl(ids):
         "poll.complete_panics": K("op.poll.complete_panics", "op.rs", O + "poll_complete_panics", "polling a Complete operation panics: a second value can never be produced", OPFN),
         "poll_next.running": K("op.poll_next.running", "op.rs", O + "poll_next_running", "multishot Running (0..3 queued): head of the queue delivered (Ok/Err), rest keeps order, status unchanged, resources stay; empty => Pending with waker stored", OPFN, tier="thorough"),
         "poll_next.done": K("op.poll_next.done", "op.rs", O + "poll_next_done", "multishot Done: queued results delivered in order; drained => Ready(None) exactly once, Complete, resources dropped exactly once; -EINTR/-ECANCELED as last result => transparent restart with identical request", OPFN, tier="thorough"),
+        "process.dropped": K("op.process.dropped", "op.rs", O + "process_single_dropped", "Completion::process on an ABANDONED operation (real code: pointer+tag dispatch, update, erased destructor called through the function pointer): kept alive while F_MORE, on the final completion the state is freed exactly once and its resources dropped exactly once; no waker touched", ["io_uring::cq::Completion::process", "io_uring::op::Shared::update", "io_uring::op::drop_state"]),
         "process.running": K("op.process.running", "op.rs", O + "process_single_running", "Completion::process on a real operation (pointer+tag dispatch): the result reaches exactly that operation (last non-NOTIF), Done iff final, its waker woken exactly once iff final; a second live operation is untouched; nothing freed", ["io_uring::cq::Completion::process", "io_uring::op::Shared::update"]),
     }
     return [dict(cat[i]) for i in ids]
@@ -125,7 +126,7 @@ P["C01"] = {
     ],
     "trusted_base": OPTRUST,
     "assumptions": ["'static bound on Buf/BufMut/BufSlice/BufMutSlice and the &'fd AsyncFd borrow are type-level (rustc), not re-proved"],
-    "obligations": op_obl(["state_new", "update.single", "update.multi.dropped", "drop.not_started", "drop.running", "drop.running.waker", "drop.done", "drop.done.waker", "drop.complete", "drop.rg.first", "drop.rg.later", "drop_state", "poll.done.ok", "poll.done.restart", "poll.done.err", "poll_next.done", "process.running"]),
+    "obligations": op_obl(["state_new", "update.single", "update.multi.dropped", "drop.not_started", "drop.running", "drop.running.waker", "drop.done", "drop.done.waker", "drop.complete", "drop.rg.first", "drop.rg.later", "drop_state", "poll.done.ok", "poll.done.restart", "poll.done.err", "poll_next.done", "process.running", "process.dropped"]),
 }
 P["C02"] = {
     "level_text": "Proof: dispatch (Completion::process on real states: pointer + tag, second operation untouched), storage (Shared::update: last-writer except NOTIF; multishot append-in-order) and delivery (poll_inner: head of queue, end-of-stream exactly once, panic on re-poll after completion) are each proved by CBMC on the real functions for all result/flag values and all ring counters; the real Multishot container is proved FIFO for unbounded length by Verus on the extracted functions.",
@@ -173,7 +174,7 @@ P["C06"] = {
     "trusted_base": OPTRUST,
     "assumptions": [],
     "obligations": [K("c06.cancel.encoding", "sq.rs", S + "c06_cancel_encoding", "Submissions::cancel(ud): ASYNC_CANCEL, addr == ud, CANCEL_USER_DATA, CQE_SKIP_SUCCESS, every other byte zero; QueueFull => nothing written", ["io_uring::sq::Submissions::cancel"])]
-        + op_obl(["drop.not_started", "drop.running", "drop.running.waker", "drop.done", "drop.done.waker", "drop.complete", "drop.rg.first", "drop.rg.later", "drop_state", "update.single", "update.multi.dropped", "poll_next.done"]) + [
+        + op_obl(["drop.not_started", "drop.running", "drop.running.waker", "drop.done", "drop.done.waker", "drop.complete", "drop.rg.first", "drop.rg.later", "drop_state", "process.dropped", "update.single", "update.multi.dropped", "poll_next.done"]) + [
         K("c05.process.reserved", "cq.rs", C + "c05_process_reserved", "cancel acknowledgements (reserved user_data 2, any result) are ignored", ["io_uring::cq::Completion::process"]),
     ],
 }
@@ -234,6 +235,8 @@ P["C07"] = {
         K("c07.stdio", "io_mod.rs", IO + "c07_stdio", "dropping Stdin/Stdout/Stderr: no CLOSE request, no close(2), for any queue state", ["io::Stdin/Stdout/Stderr::drop"]),
         K("c07.wrap.socket", "net_uring.rs", N + "c07_wrap_socket", "SocketOp::map_ok: one AsyncFd, fd == kernel result, kind == requested", ["io_uring::net::SocketOp::map_ok"]),
         K("c07.wrap.multishot_accept", "net_uring.rs", N + "c07_wrap_multishot_accept", "MultishotAcceptOp::map_next: one AsyncFd per result, kind inherited from the listener, listener untouched", ["io_uring::net::MultishotAcceptOp::map_next"]),
+        K("c07.wrap.open", "fs_uring.rs", "io_uring::fs::verif_fs::c07_wrap_open", "OpenOp::map_ok: one AsyncFd, fd == kernel result, requested kind", ["io_uring::fs::OpenOp::map_ok_extract"]),
+        K("c07.wrap.accept", "net_uring.rs", N + "c13_accept", "AcceptOp::map_ok: one AsyncFd of the listener's kind", ["io_uring::net::AcceptOp::map_ok"]),
         K("c07.wrap.pipe", "pipe_uring.rs", PI + "c07_wrap_pipe", "PipeOp::map_ok: both descriptors wrapped once, in order, requested kind", ["io_uring::pipe::PipeOp::map_ok"]),
         K("c07.wrap.to_direct", "fd.rs", F + "c07_wrap_to_direct", "ToDirectOp::map_ok: the index written back becomes one Direct AsyncFd", ["io_uring::fd::ToDirectOp::map_ok"]),
         K("c07.wrap.to_fd", "fd.rs", F + "c07_wrap_to_fd", "ToFdOp: FIXED_FD_INSTALL of this direct descriptor; result one regular AsyncFd; original keeps its descriptor", ["io_uring::fd::ToFdOp::fill_submission", "io_uring::fd::ToFdOp::map_ok"]),
@@ -375,6 +378,49 @@ P["C12"] = {
         K("c12.after_ring.wake", "sq.rs", S + "c11_wake_not_polling", "SubmissionQueue::wake with no ring polling (e.g. dropped): flag only, no system call, no ring entry", ["io_uring::sq::Submissions::wake"]),
         K("c12.after_ring.readbuf_release", "read_buf.rs", RB + "c08_readbuf_release_once", "ReadBuf release/drop touches only the pool's own memory", ["io::read_buf::ReadBuf::release"], bounded="pool 4 x 8 bytes"),
         K("c12.after_ring.op_drop", "op.rs", O + "drop_running", "dropping a pending operation needs only Arc<Shared> and the operation's own box", ["io_uring::op::State::drop"]),
+    ],
+}
+
+FS = "io_uring::fs::verif_fs::"
+PR = "io_uring::process::verif_process::"
+P["C13"] = {
+    "level_text": "Proof (loop-free, full argument domain) that every request encoder produces exactly the submission entry the io_uring ABI defines for the corresponding system call - opcode, descriptor, offset/address/length/flag fields from the right arguments, every other byte zero, direct-descriptor slot allocation exactly when a direct descriptor is requested, O_CLOEXEC/SOCK_CLOEXEC for regular ones, IOSQE_FIXED_FILE exactly on direct descriptors - and that every pointer placed in an entry (buffers, iovec arrays, msghdr, address storage, length words, stat/siginfo/option out-buffers, path strings) points into the operation's boxed Resources (C01); decoders return the counts/addresses/option values/descriptors the kernel wrote; builder settings take effect exactly until the first poll.",
+    "level_note": "Equality with the kernel's behaviour for each opcode is the assumed io_uring ABI (written out in the harnesses, from io_uring_enter(2) and the kernel uapi header). Generic encoders are instantiated with an instrumented buffer with symbolic pointer/length, SocketAddrV4 / NoAddress addresses, 2 vectored buffers, KeepAlive as the representative socket option. Not under contract: StatOp (uses a `c\"\"` literal Kani 0.68 cannot compile), PollableOp (closure inside poll_next), recv_from single-buffer variant (same code as the vectored one), the synchronous fallbacks (pipe2, getsockname, getsockopt).",
+    "functions": [
+        {"file": "src/io_uring/io.rs", "fn": r"pub\(crate\) fn close_file_fd\("},
+        {"file": "src/io_uring/net.rs", "fn": r"^fn fill_recvmsg_submission<A: SocketAddress>\("},
+    ],
+    "trusted_base": [KANIBUG, "io_uring ABI table (expected entries written in the harnesses)"],
+    "assumptions": ["the kernel implements each opcode like the corresponding system call"],
+    "obligations": [
+        K("c13.enc.read", "uio.rs", UIO + "c13_enc_read", "READ == pread(fd, spare part of buffer, spare capacity, offset | current position); decode appends n", ["io_uring::io::ReadOp"]),
+        K("c13.enc.read_pool", "uio.rs", UIO + "c13_enc_read_pool", "pool read: BUFFER_SELECT + group id, no address; decode -> owned slot", ["io_uring::io::ReadOp"]),
+        K("c13.enc.write", "uio.rs", UIO + "c13_enc_write", "WRITE == pwrite(fd, buf, len, offset); extract returns the caller's buffer", ["io_uring::io::WriteOp"]),
+        K("c13.enc.vectored", "uio.rs", UIO + "c13_enc_vectored", "READV/WRITEV: iovec array inside Resources, count, offset; decode fills front to back", ["io_uring::io::ReadVectoredOp", "io_uring::io::WriteVectoredOp"]),
+        K("c13.enc.splice", "uio.rs", UIO + "c13_enc_splice", "SPLICE both directions", ["io_uring::io::SpliceOp"]),
+        K("c13.enc.multishot_read", "uio.rs", UIO + "c08_map_multishot_read", "READ_MULTISHOT with buffer selection", ["io_uring::io::MultishotReadOp"]),
+        K("c13.enc.close", "fd.rs", F + "c07_drop", "CLOSE: fd vs file_index = fd+1 (shared encoder close_file_fd)", ["io_uring::io::close_file_fd"]),
+        K("c13.enc.to_direct", "fd.rs", F + "c13_enc_to_direct", "FILES_UPDATE(ALLOC)", ["io_uring::fd::ToDirectOp"]),
+        K("c13.enc.to_fd", "fd.rs", F + "c07_wrap_to_fd", "FIXED_FD_INSTALL", ["io_uring::fd::ToFdOp"]),
+        K("c13.enc.open", "fs_uring.rs", FS + "c13_enc_open", "OPENAT == openat(AT_FDCWD, path, flags, mode)", ["io_uring::fs::OpenOp"]),
+        K("c13.enc.paths", "fs_uring.rs", FS + "c13_enc_paths", "MKDIRAT / RENAMEAT (old in addr, new in off) / UNLINKAT (AT_REMOVEDIR iff directory)", ["io_uring::fs::CreateDirOp", "io_uring::fs::RenameOp", "io_uring::fs::DeleteOp"]),
+        K("c13.enc.fd_ops", "fs_uring.rs", FS + "c13_enc_fd_ops", "FSYNC(DATASYNC) / FADVISE / FALLOCATE (len in addr, mode in len) / FTRUNCATE", ["io_uring::fs::SyncDataOp", "io_uring::fs::AdviseOp", "io_uring::fs::AllocateOp", "io_uring::fs::TruncateOp"]),
+        K("c13.enc.socket", "net_uring.rs", N + "c13_enc_socket", "SOCKET == socket(domain, type|CLOEXEC, protocol)", ["io_uring::net::SocketOp"]),
+        K("c13.enc.bind_connect_listen", "net_uring.rs", N + "c13_enc_bind_connect_listen", "BIND (len in addr2) / CONNECT (len in off) / LISTEN", ["io_uring::net::BindOp", "io_uring::net::ConnectOp", "io_uring::net::ListenOp"]),
+        K("c13.socket_name", "net_uring.rs", N + "c13_socket_name", "GETSOCKNAME cmd local/peer; decoded address == what the kernel wrote", ["io_uring::net::SocketNameOp"]),
+        K("c13.enc.send", "net_uring.rs", N + "c13_enc_send", "SEND / SEND_ZC / with destination address", ["io_uring::net::SendOp", "io_uring::net::SendToOp"]),
+        K("c13.enc.msg", "net_uring.rs", N + "c13_enc_msg", "SENDMSG[_ZC] / RECVMSG: msghdr, iovecs, address inside Resources", ["io_uring::net::SendMsgOp", "io_uring::net::RecvFromVectoredOp", "io_uring::net::fill_recvmsg_submission", "unix::MsgHeader::init_send", "unix::MsgHeader::init_recv"]),
+        K("c13.enc.recv", "net_uring.rs", N + "c13_enc_recv", "RECV into the spare part of the buffer; SHUTDOWN", ["io_uring::net::RecvOp", "io_uring::net::ShutdownOp"]),
+        K("c13.accept", "net_uring.rs", N + "c13_accept", "ACCEPT with address: out-parameters inside Resources; socket of the listener's kind + decoded peer address", ["io_uring::net::AcceptOp"]),
+        K("c13.enc.multishot_accept", "net_uring.rs", N + "c13_enc_multishot_accept", "ACCEPT multishot", ["io_uring::net::MultishotAcceptOp"]),
+        K("c13.sockopt", "net_uring.rs", N + "c13_sockopt", "GETSOCKOPT / SETSOCKOPT cmds: level, name, length, value pointer inside Resources; decoded value", ["io_uring::net::SocketOptionOp", "io_uring::net::SetSocketOptionOp"]),
+        K("c13.enc.pipe", "pipe_uring.rs", PI + "c13_enc_pipe", "PIPE: fd array inside Resources, flags|CLOEXEC", ["io_uring::pipe::PipeOp"]),
+        K("c13.enc.waitid", "process_uring.rs", PR + "c13_enc_waitid", "WAITID", ["io_uring::process::WaitIdOp"]),
+        K("c13.enc.receive_signal", "process_uring.rs", PR + "c13_enc_receive_signal", "signalfd READ", ["io_uring::process::ReceiveSignalOp"]),
+        K("c13.enc.madvise", "process_uring.rs", PR + "c13_enc_madvise", "MADVISE", ["io_uring::mem::AdviseOp"]),
+        K("c13.builder_gate", "op.rs", O + "c13_builder_gate", "args_mut/resources_mut are Some exactly while NotStarted", ["io_uring::op::State::args_mut", "io_uring::op::State::resources_mut"]),
+        K("c13.fd_target_flags", "op.rs", O + "c13_fd_target_flags", "a request on an AsyncFd carries IOSQE_FIXED_FILE exactly for direct descriptors, on top of the encoder's output and the user_data", ["io_uring::op::<impl OpTarget for AsyncFd>::set_flags", "io_uring::fd::Kind::use_flags"]),
+        K("op.poll.not_started", "op.rs", O + "poll_not_started", "the queued entry is exactly the encoder's output (no field lost or added)", OPFN),
     ],
 }
 
